@@ -86,7 +86,8 @@ def mk_stream(v):
 
 def inv(v, s, srv, L, out):
     rem = v.get(s, '_bytes_remaining')
-    return And(rem >= 0, rem == L - out, srv.pos == out)
+    # frame: the wrapped stream and the declared length are never replaced
+    return And(rem >= 0, rem == L - out, srv.pos == out, v.get(s, 'stream') is srv, v.get(s, 'stream_len') == L)
 
 
 def size_arg(v):
@@ -174,7 +175,7 @@ def _exhaust_loops(reg, ex):
 def _inv_obj(s):
     srv = s._fields['stream']
     rem = s._fields['_bytes_remaining']
-    return And(rem >= 0, rem == srv.L - srv.pos, srv.pos <= Len(srv.src))
+    return And(rem >= 0, rem == srv.L - srv.pos, srv.pos <= Len(srv.src), s._fields['stream_len'] == srv.L)
 
 
 @harness(PROP, BS + '.exhaust', setup=_exhaust_loops)
